@@ -743,6 +743,54 @@ def check_sensorlist(nsp, freqs, theta):
     return bad
 
 
+def check_sensorlist_angles(nsp, freq):
+    """a list of sensors that view at different angles (equally many), one per snowpack: the value found at (snowpack k, angle of sensor k)
+    is the individual simulation's"""
+    from smrt.core.sensor import passive
+    rng = np.random.default_rng(11)
+    m = dort_model()
+    sps = [mk_snowpack(rng, "a%d" % i, 1 + i % 3) for i in range(nsp)]
+    angles = [[40. + 5 * i, 50. + 5 * i] for i in range(nsp)]
+    r = m.run([passive(freq, th) for th in angles], sps)
+    bad = []
+    for si, (sp, th) in enumerate(zip(sps, angles)):
+        want = np.asarray(m.run(passive(freq, th), sp).data.values)
+        for ti, t in enumerate(th):
+            try:
+                got = np.asarray(r.data.sel(snowpack=si, theta=t).values).ravel()
+            except KeyError:
+                bad.append(((si, t), "no such coordinate", want[ti].tolist())); continue
+            if want[ti].ravel().tobytes() != got.tobytes():
+                bad.append(((si, t), got.tolist(), want[ti].ravel().tolist()))
+    return bad
+
+
+def check_rough_repeat(seed):
+    """snowpacks under the same very rough (geometrical-optics) surface, differing only below it, simulated as a batch, again, and one by
+    one: the same numbers every time"""
+    from smrt import make_snowpack, make_interface
+    from smrt.core.sensor import passive
+    rng = np.random.default_rng(seed)
+    m = dort_model()
+    sps = []
+    for i in range(3):
+        sps.append(make_snowpack([0.3, 1.0], "sticky_hard_spheres", density=[250., 350.], radius=[2e-4, float(rng.integers(2, 7)) * 1e-4], stickiness=0.2,
+                                 temperature=[255., 262.], surface=make_interface("geometrical_optics", mean_square_slope=0.05)))
+    sensor = passive([19e9, 37e9], [40., 55.])
+    r1 = np.asarray(m.run(sensor, sps).data.values)
+    r2 = np.asarray(m.run(sensor, sps).data.values)
+    ind = [np.asarray(m.run(sensor, sp).data.values) for sp in sps]
+    problems = []
+    if r1.tobytes() != r2.tobytes():
+        problems.append(("rough-surface:repeat", float(np.nanmax(np.abs(r1 - r2)))))
+    r1s = np.asarray(m.run(sensor, sps).data.sel(snowpack=0).values)
+    for si in range(3):
+        got = np.asarray(m.run(sensor, sps).data.sel(snowpack=si).values) if si else r1s
+        if not np.allclose(got, ind[si], rtol=0, atol=1e-9):
+            problems.append(("rough-surface:batch", si, float(np.nanmax(np.abs(got - ind[si])))))
+    return problems
+
+
 def check_sensors_untouched():
     """a list of sensors that carry channel definitions (one radiometer channel each), one per snowpack: the run leaves the sensors as they
     were, and a sensor reused afterwards for a batch gives every snowpack's value under its channel name"""
@@ -881,6 +929,19 @@ def oracle(ctx, hints, effort):
             findings.setdefault(K_ORDER, Finding(K_ORDER, f"Model.run with a list of {nsp} sensors of {len(freqs)} frequencies: the value at (frequency index, snowpack index) "
                                                  f"{bad[0][0]} is not that of the individual simulation ({len(bad)} of {nsp * len(freqs)} cells misplaced)",
                                                  {"kind": "sensorlist", "nsp": nsp, "freqs": list(freqs)}, bad[0][1], bad[0][2]))
+    evals += 1
+    try:
+        bad = check_sensorlist_angles(3, 19e9)
+    except Exception as e:  # noqa
+        bad = [("raised", C.err_kind(e), None)]
+    if bad:
+        key = K_ORDER + ":angles"
+        findings.setdefault(key, Finding(key, f"Model.run with a list of 3 sensors viewing at different angles: the value at (snowpack, angle) {bad[0][0]} is not "
+                                         f"that of the individual simulation ({len(bad)} cells)", {"kind": "sensorlist-angles"}, bad[0][1], bad[0][2]))
+    evals += 6
+    for p in check_rough_repeat(3):
+        key = "dort:" + p[0]
+        findings.setdefault(key, Finding(key, f"snowpacks under the same geometrical-optics surface: {p}", {"kind": "rough-repeat", "seed": 3}, p, "equal"))
     # batch vs individual, repeat, parallel
     seeds = [int(ctx.np.integers(0, 10**6)) for _ in range(4 if effort == "routine" else 10)]
     for j, sd in enumerate(seeds):
@@ -911,6 +972,12 @@ def replay(inp, rp=None):
     if inp["kind"] == "sensorlist":
         bad = check_sensorlist(inp["nsp"], tuple(inp["freqs"]), 55.)
         return Finding(K_ORDER, "sensor-list values misplaced", inp, bad[0][1], bad[0][2]) if bad else None
+    if inp["kind"] == "sensorlist-angles":
+        bad = check_sensorlist_angles(3, 19e9)
+        return Finding(K_ORDER + ":angles", "sensor-list values misplaced", inp, bad[0][1], bad[0][2]) if bad else None
+    if inp["kind"] == "rough-repeat":
+        p = check_rough_repeat(inp["seed"])
+        return Finding("?", "rough surface: repeat / batch differs", inp, p, "equal") if p else None
     if inp["kind"] == "batch":
         p = check_batch(inp["seed"], inp.get("n_jobs"))
         return Finding("?", "batch / repeat / parallel differs", inp, p, "bitwise equal") if p else None
